@@ -25,9 +25,14 @@ EXTENDS RouterRef, TLC, Json
 CONSTANTS MaxLen,              \* maximal recipe length explored
           ResetComboOnSingle,  \* TRUE: intended design.  FALSE: _stop_combo keeps a one-entry combo (seeded deviation)
           WithTail,                \* TRUE: the recipe is followed by the builtin provider that serves the request
+          Req,                 \* "A": a request of origin A;  "U": a request whose type cannot be normalised
           EmitCases            \* TRUE: print every finished case as a JSON record
 
-Full(r) == FullIf(WithTail, r)
+\* for an unnormalisable request the builtin recipe has nothing to offer
+Full(r) == IF Req = "A" THEN FullIf(WithTail, r) ELSE IF WithTail THEN Append(r, [c |-> "predN", h |-> "plain"]) ELSE r
+MC == IF Req = "A" THEN {"exA", "predY"} ELSE {"predY"}
+\* LocatedRequestRouter.route_handler: origin = normalize_type(type).origin, or a fresh object() that no table contains
+OriginClass == IF Req = "A" THEN "exA" ELSE "no such origin"
 
 (* ---------------------------- implementation machine ------------------------------- *)
 VARIABLES rec,      \* the recipe under test (sequence of Providers)
@@ -90,8 +95,8 @@ Top == frames[Len(frames)]
 SetTop(f) == [frames EXCEPT ![Len(frames)] = f]
 
 \* index of the provider an item yields for the request (0 = the item does not serve it)
-Hit(it) == IF it.k = "one" THEN (IF Matches(R[it.i]) THEN it.i ELSE 0)
-           ELSE LET S == {j \in 1..Len(it.is) : R[it.is[j]].c = "exA"}     \* origin table lookup .get(origin)
+Hit(it) == IF it.k = "one" THEN (IF R[it.i].c \in MC THEN it.i ELSE 0)
+           ELSE LET S == {j \in 1..Len(it.is) : R[it.is[j]].c = OriginClass}     \* origin table lookup .get(origin)
                 IN IF S = {} THEN 0 ELSE it.is[CHOOSE j \in S : TRUE]
 HitPositions(off) == {j \in (off + 1)..Len(items) : Hit(items[j]) # 0}
 Min(S) == CHOOSE x \in S : \A y \in S : x <= y
@@ -159,7 +164,7 @@ Next == AddProvider \/ StartBuild \/ Register \/ Finalize \/ Route \/ FrameFail 
 Spec == Init /\ [][Next]_vars
 
 (* ---------------------------- properties (C09) ------------------------------------- *)
-RefR == Ref(R, 1)
+RefR == RefG(R, 1, MC)
 
 \* the table optimisation is invisible: same providers consulted in the same order, same outcome
 RouterEquiv == phase = "done" => /\ log = RefR.log
@@ -183,7 +188,7 @@ FirstMatch == phase = "done" /\ res.ok =>
                  \A a \in 1..Len(log) : R[log[a]].h = "plain" => a = Len(log)
 
 (* ---------------------------- case emission ---------------------------------------- *)
-CaseRecord == [rec |-> rec, tail |-> WithTail, ok |-> RefR.ok, term |-> RefR.term, log |-> RefR.log,
+CaseRecord == [rec |-> rec, tail |-> WithTail, req |-> Req, ok |-> RefR.ok, term |-> RefR.term, log |-> RefR.log,
                items |-> [j \in 1..Len(items) |-> IF items[j].k = "one" THEN <<items[j].i>> ELSE items[j].is]]
 EmitCase == phase = "done" /\ EmitCases => PrintT(ToJson(CaseRecord))
 =======================================================================================
